@@ -937,7 +937,6 @@ func (tr *fnTrans) checkIterEnsures(li *loopInfo, guard string, b *ssa.BasicBloc
 	}
 }
 
-
 // freshSlicePhi: every value flowing into the phi is a freshly made slice or an append to the phi itself
 // (possibly through other phis of the same kind).
 func freshSlicePhi(ph *ssa.Phi) bool {
